@@ -1,0 +1,35 @@
+//go:build verif
+
+package paillier
+
+// Decoder schema (property C12), instantiated mechanically by `govc gen-decoders`: a decoder returns nil only if
+// the validating constructor, applied to the decoded fields, returned a nil error. Constructors marked
+// "assumed / purefn" are only assumed to be deterministic functions of their arguments.
+
+//@ func (*Plaintext).UnmarshalCBOR
+//@   property C12
+//@   let dto = as(res(serde.UnmarshalCBOR(data), 0), *plaintextDTO)
+//@   ensures err == nil ==> res(NewPlaintext(dto.P), 1) == nil
+
+//@ func (*PublicKey).UnmarshalCBOR
+//@   property C12
+//@   let dto = as(res(serde.UnmarshalCBOR(data), 0), *publicKeyDTO)
+//@   ensures err == nil ==> res(NewPublicKey(dto.Group), 1) == nil
+
+//@ func (*SecretKey).UnmarshalCBOR
+//@   property C12
+//@   let dto = as(res(serde.UnmarshalCBOR(data), 0), *secretKeyDTO)
+//@   ensures err == nil ==> res(NewSecretKey(dto.Group), 1) == nil
+
+//@ func NewPlaintext
+//@   assumed
+//@   purefn
+
+//@ func NewPublicKey
+//@   assumed
+//@   purefn
+
+//@ func NewSecretKey
+//@   assumed
+//@   purefn
+
